@@ -6,7 +6,7 @@ from .model import X, show, loc, norm_path, walk
 from .cfg import Flow, facts_of, Slicer
 
 FINITE_ITERS = re.compile(
-    r"(core|std|alloc)::(slice::(iter::)?(Iter|IterMut|Chunks|ChunksMut|ChunksExact|Windows|Split)|ops::(range::)?(Range|RangeInclusive)|"
+    r"(core|std|alloc)::(slice::(iter::)?(Iter|IterMut|Chunks|ChunksMut|ChunksExact|Windows|Split)|ops::(range::)?(Range|RangeInclusive)|path::(Components|Iter|Ancestors)|str::(iter::)?(Chars|CharIndices|Bytes|Split|Lines|SplitWhitespace)|"
     r"vec::(into_iter::)?IntoIter|vec::(drain::)?Drain|collections::(hash::map|hash::set|btree::map|btree::set|vec_deque(::iter|::iter_mut|::into_iter|::drain)?|hash_map|hash_set|btree_map|btree_set)::"
     r"(Iter|IterMut|IntoIter|Keys|Values|ValuesMut|Drain|IntoKeys|IntoValues)|"
     r"iter::(adapters::)?(enumerate::Enumerate|zip::Zip|filter::Filter|map::Map|rev::Rev|step_by::StepBy|take::Take|skip::Skip|"
